@@ -1,16 +1,11 @@
 import I18n.Lemmas.PyBraceSpec
+import I18n.Spec.PyBraceArgs
 /-
 python-brace: the type set the tool computes for a format specification is sound for CPython's `__format__` of `str`, `int`,
 `float` — except for the two combinations `Spec.quirk` (comma with b/c/o/x/X; sign or `#` with `c`).
 -/
 namespace I18n.PyBrace
 open I18n.BraceChars I18n.Spec.StrFormat
-
-/-- a value has one of the types of the set -/
-def hasType (tp : TySet) : Val → Bool
-  | .str => tp.str
-  | .int _ => tp.int
-  | .float => tp.float
 
 theorem specCheck_stages {cfg : Cfg} {f : Spec} {tp : TySet} (h : specCheck cfg f = .ok tp) :
     ∃ tp0 tp1 tp2, tpType f = .ok tp0 ∧ tpFlags f tp0 = .ok tp1 ∧ tpAlign f tp1 = .ok tp2 ∧ checkWidth cfg f = .ok () ∧
